@@ -262,6 +262,9 @@ def run(M, rec, tier, seed, k, n):
     for it in range(90 if tier == "quick" else 700):
         shape = next(sh)
         desc = g.all_kinds_network() if it % 6 == 0 else g.network(shape)[1]
+        if it % 9 == 4:
+            desc = g.network(rng.choice(("chain", "ramp", "random")), force=("long", "vsl"))[1]
+            rec.count("networks_with_long_speed_limited_links")
         pars = g.pars()
         rec.seen("net_signatures", D.signature(desc))
         case = None
